@@ -1,4 +1,134 @@
 /-
-  C18 — save / load.  Property theorems only (filled in as proofs land).
+  C18 — save / load (`BfsResult.save`, `BfsResult.load`, `BfsResult.__eq__`, algo/bfs_result.py:42-137).
+  Property theorems only; proofs in `CvProofs/SaveLoad.lean`.
+
+  Findings recorded here by `example`:
+  * `load ∘ save` is described exactly, for EVERY result, by `load_save_eq` (CvProofs): the stored layers and the
+    generators are re-cut into rows of the state size and the hash list is cut at `len(layer_sizes)`.  Of the five
+    fields of `WF`, the round trip `load (save r) = some r` uses exactly three (`layersRows`, `gensRows`, `hashesLe`;
+    theorem `load_save_min`), each of which is needed (counterexamples below).  No further side condition is needed:
+    `toString`/`toNat?` round-trips on `Nat` (`Nat.toNat?_repr`), the keys `layer__i`, `edges_list_hashes__i` and
+    the fixed keys never collide, a stored layer with zero rows survives.
+  * `layersNodupKeys` is what `__eq__` needs: without it `beq` is neither reflexive nor symmetric (examples below).
 -/
-import CvModel.SaveLoad
+import CvProofs.SaveLoad
+namespace Cv.SaveLoad
+
+/-- well-formedness of a result as the BFS produces it -/
+structure WF (r : Res) : Prop where
+  layersNodupKeys : (r.layers.map (·.1)).Nodup
+  layersRows : ∀ p ∈ r.layers, ∀ row ∈ p.2, row.length = r.central.length
+  gensRows : ∀ g ∈ r.gens, g.length = r.central.length
+  /-- the loader stops at `len(layer_sizes)` -/
+  hashesLe : r.layersHashes.length ≤ r.layerSizes.length
+  stateSizePos : 0 < r.central.length
+
+/-- a concrete well-formed result: S_3 with two transpositions, layers 0 and 2 stored (one of them could be empty),
+all hashes kept, an edge list -/
+def exRes : Res :=
+  { completed := true, layerSizes := [1, 2, 2, 1],
+    layers := [(0, [[0, 1, 2]]), (2, [[1, 2, 0], [2, 0, 1]]), (7, [])],
+    layersHashes := [[5], [-3, 7], [9, 11], [-20]],
+    edges := some [(5, -3), (5, 7), (-3, 9)],
+    gens := [[1, 0, 2], [0, 2, 1]], genNames := ["a", "b"], central := [0, 1, 2], name := "ex" }
+
+theorem exRes_wf : WF exRes := by
+  constructor <;> decide
+
+theorem load_save (r : Res) (h : WF r) : load (save r) = some r := by
+  exact load_save_min r h.layersRows h.gensRows h.hashesLe
+
+/-- non-vacuity -/
+example : load (save exRes) = some exRes := load_save exRes exRes_wf
+
+/-- what `load ∘ save` does to an ARBITRARY result (no hypotheses): stored layers and generators are re-cut into rows of
+the state size, the hash list is cut at `len(layer_sizes)`; everything else comes back unchanged -/
+theorem load_save_exact (r : Res) : load (save r) = some (renorm r) := by
+  exact load_save_eq r
+
+example : renorm { exRes with layerSizes := [1, 2] } = { exRes with layerSizes := [1, 2], layersHashes := [[5], [-3, 7]] } := by
+  decide
+
+/-- `layersRows` is needed: a stored layer with a ragged row comes back re-cut -/
+example : ∃ r : Res, (r.layers.map (·.1)).Nodup ∧ (∀ g ∈ r.gens, g.length = r.central.length) ∧
+    r.layersHashes.length ≤ r.layerSizes.length ∧ 0 < r.central.length ∧ load (save r) ≠ some r := by
+  refine ⟨{ exRes with layers := [(0, [[0, 1, 2, 0], [1, 2]])] }, by decide, by decide, by decide, by decide, ?_⟩
+  rw [load_save_eq]; decide
+
+/-- `gensRows` is needed: a generator of the wrong length comes back re-cut -/
+example : ∃ r : Res, (r.layers.map (·.1)).Nodup ∧ (∀ p ∈ r.layers, ∀ row ∈ p.2, row.length = r.central.length) ∧
+    r.layersHashes.length ≤ r.layerSizes.length ∧ 0 < r.central.length ∧ load (save r) ≠ some r := by
+  refine ⟨{ exRes with gens := [[1, 0], [0, 2, 1, 3]] }, by decide, by decide, by decide, by decide, ?_⟩
+  rw [load_save_eq]; decide
+
+/-- `hashesLe` is needed: the loader reads at most `len(layer_sizes)` hash layers -/
+example : ∃ r : Res, (r.layers.map (·.1)).Nodup ∧ (∀ p ∈ r.layers, ∀ row ∈ p.2, row.length = r.central.length) ∧
+    (∀ g ∈ r.gens, g.length = r.central.length) ∧ 0 < r.central.length ∧ load (save r) ≠ some r := by
+  refine ⟨{ exRes with layerSizes := [1, 2] }, by decide, by decide, by decide, by decide, ?_⟩
+  rw [load_save_eq]; decide
+
+theorem beq_iff (a b : Res) (_ha : (a.layers.map (·.1)).Nodup) (hb : (b.layers.map (·.1)).Nodup) :
+    beq a b = true ↔ a.completed = b.completed ∧ a.layerSizes = b.layerSizes ∧
+      (∀ i L, (i, L) ∈ a.layers ↔ (i, L) ∈ b.layers) ∧
+      a.layersHashes = b.layersHashes ∧ a.edges = b.edges ∧ a.gens = b.gens ∧ a.genNames = b.genNames ∧
+      a.central = b.central ∧ a.name = b.name := by
+  exact beq_iff' a b hb
+
+/-- non-vacuity: two results with the same layer dictionary in a different order are equal; changing a row is seen -/
+example : beq exRes { exRes with layers := exRes.layers.reverse } = true := by decide
+example : beq exRes { exRes with layers := [(0, [[0, 1, 2]]), (2, [[1, 2, 0], [2, 1, 0]]), (7, [])] } = false := by
+  decide
+/-- distinct keys are needed (for `b`): with a repeated key the right-hand side fails but `beq` holds -/
+example : ∃ a b : Res, (a.layers.map (·.1)).Nodup ∧ beq a b = true ∧
+    ¬ (∀ i L, (i, L) ∈ a.layers ↔ (i, L) ∈ b.layers) := by
+  refine ⟨{ exRes with layers := [(0, [[0, 1, 2]])] },
+    { exRes with layers := [(0, [[0, 1, 2]]), (0, [[2, 1, 0]])] }, by decide, by decide, ?_⟩
+  intro h
+  exact absurd ((h 0 [[2, 1, 0]]).2 (by decide)) (by decide)
+
+theorem beq_refl (r : Res) (h : (r.layers.map (·.1)).Nodup) : beq r r = true := by
+  exact beq_refl' r h
+
+example : beq exRes exRes = true := beq_refl exRes exRes_wf.layersNodupKeys
+/-- distinct keys are needed: a "dictionary" with a repeated key is not equal to itself -/
+example : beq { exRes with layers := [(0, [[0, 1, 2]]), (0, [[2, 1, 0]])] }
+    { exRes with layers := [(0, [[0, 1, 2]]), (0, [[2, 1, 0]])] } = false := by decide
+
+theorem beq_symm (a b : Res) (ha : (a.layers.map (·.1)).Nodup) (hb : (b.layers.map (·.1)).Nodup) :
+    beq a b = beq b a := by
+  exact beq_symm' a b ha hb
+
+example : beq exRes { exRes with layers := exRes.layers.reverse } =
+    beq { exRes with layers := exRes.layers.reverse } exRes :=
+  beq_symm _ _ (by decide) (by decide)
+/-- distinct keys are needed: -/
+example : beq { exRes with layers := [(0, [[0, 1, 2]])] }
+      { exRes with layers := [(0, [[0, 1, 2]]), (0, [[2, 1, 0]])] } ≠
+    beq { exRes with layers := [(0, [[0, 1, 2]]), (0, [[2, 1, 0]])] }
+      { exRes with layers := [(0, [[0, 1, 2]])] } := by decide
+
+theorem beq_load_save (r : Res) (h : WF r) : ∃ r', load (save r) = some r' ∧ beq r' r = true ∧ beq r r' = true := by
+  exact ⟨r, load_save r h, beq_refl r h.layersNodupKeys, beq_refl r h.layersNodupKeys⟩
+
+example : ∃ r', load (save exRes) = some r' ∧ beq r' exRes = true ∧ beq exRes r' = true :=
+  beq_load_save exRes exRes_wf
+/-- `layersNodupKeys` is needed here (and only here): the file round-trips, but the result is not `==` to itself -/
+example : ∃ r : Res, load (save r) = some r ∧ beq r r = false := by
+  refine ⟨{ exRes with layers := [(0, [[0, 1, 2]]), (0, [[2, 1, 0]])] }, ?_, by decide⟩
+  exact load_save_min _ (by decide) (by decide) (by decide)
+
+/-- a loaded result answers path queries exactly as the original (the query only reads `layersHashes`) -/
+theorem loaded_answers {α} (g gi : Cv.Graph α) (r : Res) (h : WF r) (q : α) :
+    ∃ r', load (save r) = some r' ∧
+      Cv.findPathTo g gi r'.layersHashes q = Cv.findPathTo g gi r.layersHashes q := by
+  exact ⟨r, load_save r h, rfl⟩
+
+/-- non-vacuity: a query on the path graph 0-1-2-3 (generators +1 / -1 clipped) against saved-and-loaded hashes -/
+example : ∃ r', load (save exRes) = some r' ∧
+    Cv.findPathTo (α := Nat) ⟨2, fun i x => if i = 0 then x + 1 else x - 1, fun x => x, true, 4⟩
+      ⟨2, fun i x => if i = 0 then x - 1 else x + 1, fun x => x, true, 4⟩ r'.layersHashes 9 =
+    Cv.findPathTo (α := Nat) ⟨2, fun i x => if i = 0 then x + 1 else x - 1, fun x => x, true, 4⟩
+      ⟨2, fun i x => if i = 0 then x - 1 else x + 1, fun x => x, true, 4⟩ exRes.layersHashes 9 :=
+  loaded_answers _ _ exRes exRes_wf 9
+
+end Cv.SaveLoad
